@@ -175,3 +175,40 @@ pub fn space(n: u32, es: u32, pairs: Arc<Vec<(u32, u32)>>, depth: i32, rich: boo
         (a as u128) << 64 | (b as u128) << 32 | c as u128
     })
 }
+
+/// "shape" alphabet: every representable scale x every fraction shape (runs of ones, single bits, menu), both signs
+pub fn alphabet_x(n: u32, es: u32, rich: bool) -> Vec<u32> {
+    let m = if n == 32 { u32::MAX } else { (1u32 << n) - 1 };
+    let lim = (n as i32 - 2) * (1 << es);
+    let mut v = vec![0u32, 1u32 << (n - 1), (1u32 << (n - 1)) - 1, 1, (1u32 << (n - 1)) + 1, m];
+    for scale in -lim..=lim {
+        if let Some(nf) = frac_bits(n, es, scale) {
+            for f in shapes(nf, rich) {
+                let p = build(n, es, scale, |_| f).unwrap();
+                v.push(p);
+                v.push(p.wrapping_neg() & m);
+            }
+        }
+    }
+    v.sort();
+    v.dedup();
+    v
+}
+
+/// the members of the shape alphabet whose scale is in [-2, 2] (full-length fractions)
+pub fn alphabet_x_near_one(n: u32, es: u32, rich: bool) -> Vec<u32> {
+    let m = if n == 32 { u32::MAX } else { (1u32 << n) - 1 };
+    let mut v = vec![];
+    for scale in -2..=2 {
+        if let Some(nf) = frac_bits(n, es, scale) {
+            for f in shapes(nf, rich) {
+                let p = build(n, es, scale, |_| f).unwrap();
+                v.push(p);
+                v.push(p.wrapping_neg() & m);
+            }
+        }
+    }
+    v.sort();
+    v.dedup();
+    v
+}
